@@ -22,7 +22,9 @@ import (
 //	out: one line per executed op: {"sc","i","op","side","ret","alert","err","us", event fields ...}
 //
 // ops:  Start(side) | Next(side) = NextEvent; a WriteData event is queued towards the peer |
-//       Deliver(side,k) = HandleData(side, level, first k units of the oldest queued chunk; k=0: all of it) |
+//       Deliver(side,k) = HandleData(side, level, first k units of the oldest queued chunk; k=0: all of it), carried out as
+//                         calls of at most cfg.chunk bytes, from fresh slices or from one reused, overwritten buffer (cfg.reuse);
+//                         every HandleData call is logged as its own Deliver record (u = bytes handed over) |
 //       Cancel = cancel the context given to the client's Start | Close(side)
 // A unit is half a handshake message (so TLC can choose to cut a flight at a message boundary or inside a message).
 // Every call runs under a watchdog; a call that does not return within timeout_ms is logged ret="hung" and ends
@@ -34,6 +36,9 @@ type pumpCfg struct {
 	HRR       bool   `json:"hrr"`       // server CurvePreferences = [P-384], the client's only share is X25519
 	SrvRefuse bool   `json:"srvRefuse"` // server speaks another ALPN: it fails the handshake on the ClientHello
 	CliRefuse bool   `json:"cliRefuse"` // client does not trust the server's CA: it fails on the Certificate
+	// how the pump hands CRYPTO data to HandleData (not part of the model: every variant must behave like whole delivery)
+	Chunk int  `json:"chunk"` // every Deliver is carried out as HandleData calls of at most Chunk bytes (0: one call)
+	Reuse bool `json:"reuse"` // false: a fresh slice per call; true: ONE receive buffer per side, overwritten right after each HandleData returns
 }
 
 type pumpOp struct {
@@ -64,9 +69,10 @@ type pumpEvent struct {
 	Hrr   []int  `json:"hrr"`   // WriteData: per message 1 = ServerHello carrying the HelloRetryRequest random
 	Sid   []int  `json:"sid"`   // WriteData: per message legacy_session_id length of a Client/ServerHello, 99 = other message
 	Junk  int    `json:"junk"`  // WriteData: trailing bytes that are not a complete handshake message (a CCS would show up here)
-	U     int    `json:"u"`     // Deliver: units handed over
-	Rem   int    `json:"rem"`   // Deliver: units of the chunk still queued
+	U     int    `json:"u"`     // Deliver: bytes handed to this HandleData call
+	Rem   int    `json:"rem"`   // Deliver: bytes of the queued WriteData chunk still undelivered
 	K     int    `json:"k"`     // Deliver: requested units
+	Ml    []int  `json:"ml"`    // WriteData: byte length of every handshake message found in Data
 	Cplt  bool   `json:"complete"`
 	BErr  string `json:"builderr"` // Start(c): error of BuildHandshakeState on a twin connection made from the same inputs ("" = builds)
 }
@@ -184,17 +190,19 @@ func newServer(cfg pumpCfg, cert tls.Certificate) *tls.QUICConn {
 	return s
 }
 
-// splitUnits cuts a CRYPTO stream into units: every complete handshake message gives two units (two halves),
-// anything left over is one last unit.
-func splitUnits(data []byte) (units [][]byte, mt, hrr, sid []int, junk int) {
-	mt, hrr, sid = []int{}, []int{}, []int{}
-	for len(data) >= 4 {
-		n := int(data[1])<<16 | int(data[2])<<8 | int(data[3])
-		if len(data) < 4+n {
+// splitUnits parses a CRYPTO stream: message types / lengths, and the unit boundaries (a unit is half a handshake
+// message; the schedules of the model count in units, the harness hands over the corresponding bytes).
+func splitUnits(data []byte) (bounds []int, mt, hrr, sid, ml []int, junk int) {
+	mt, hrr, sid, ml = []int{}, []int{}, []int{}, []int{}
+	off := 0
+	for len(data)-off >= 4 {
+		n := int(data[off+1])<<16 | int(data[off+2])<<8 | int(data[off+3])
+		if len(data)-off < 4+n {
 			break
 		}
-		m := data[:4+n]
+		m := data[off : off+4+n]
 		mt = append(mt, int(m[0]))
+		ml = append(ml, len(m))
 		h, s := 0, 99
 		if (m[0] == 1 || m[0] == 2) && len(m) >= 4+2+32+1 {
 			s = int(m[4+2+32])
@@ -204,20 +212,21 @@ func splitUnits(data []byte) (units [][]byte, mt, hrr, sid []int, junk int) {
 		}
 		hrr = append(hrr, h)
 		sid = append(sid, s)
-		half := len(m) / 2
-		units = append(units, append([]byte{}, m[:half]...), append([]byte{}, m[half:]...))
-		data = data[4+n:]
+		bounds = append(bounds, off+len(m)/2, off+len(m))
+		off += 4 + n
 	}
-	if len(data) > 0 {
-		junk = len(data)
-		units = append(units, append([]byte{}, data...))
+	if off < len(data) {
+		junk = len(data) - off
+		bounds = append(bounds, len(data))
 	}
 	return
 }
 
 type chunk struct {
-	level tls.QUICEncryptionLevel
-	units [][]byte
+	level  tls.QUICEncryptionLevel
+	data   []byte
+	bounds []int // unit boundaries (absolute offsets into data), ascending, the last one is len(data)
+	pos    int   // bytes already handed over
 }
 
 func alertOf(err error) int {
@@ -267,8 +276,9 @@ func runPump(sc pumpScenario, pki *hlib.PKI, cert tls.Certificate, timeout time.
 	cctx, ccancel := context.WithCancel(context.Background())
 	defer ccancel()
 	hung := false
+	rxbuf := map[string][]byte{"c": make([]byte, 1<<16), "s": make([]byte, 1<<16)} // the reused receive buffers (cfg.reuse)
 	mk := func(i int, op pumpOp) pumpEvent {
-		return pumpEvent{Sc: sc.ID, I: i, Op: op.Op, Side: op.Side, Alert: 256, Mt: []int{}, Hrr: []int{}, Sid: []int{}, K: op.K}
+		return pumpEvent{Sc: sc.ID, I: i, Op: op.Op, Side: op.Side, Alert: 256, Mt: []int{}, Hrr: []int{}, Sid: []int{}, Ml: []int{}, K: op.K}
 	}
 	call := func(ev *pumpEvent, f func() error) {
 		ret, err, us := watch(timeout, f)
@@ -312,9 +322,11 @@ func runPump(sc pumpScenario, pki *hlib.PKI, cert tls.Certificate, timeout time.
 				ev.Level = qe.Level.String()
 				ev.N = len(qe.Data)
 				if qe.Kind == tls.QUICWriteData {
-					units, mt, hrr, sid, junk := splitUnits(qe.Data)
-					ev.Mt, ev.Hrr, ev.Sid, ev.Junk = mt, hrr, sid, junk
-					wire[peer[op.Side]] = append(wire[peer[op.Side]], &chunk{qe.Level, units})
+					bounds, mt, hrr, sid, ml, junk := splitUnits(qe.Data)
+					ev.Mt, ev.Hrr, ev.Sid, ev.Ml, ev.Junk = mt, hrr, sid, ml, junk
+					if len(qe.Data) > 0 {
+						wire[peer[op.Side]] = append(wire[peer[op.Side]], &chunk{qe.Level, append([]byte{}, qe.Data...), bounds, 0})
+					}
 				}
 			}
 		case "Deliver":
@@ -328,20 +340,55 @@ func runPump(sc pumpScenario, pki *hlib.PKI, cert tls.Certificate, timeout time.
 				break
 			}
 			ch := q[0]
-			k := op.K
-			if k <= 0 || k > len(ch.units) {
-				k = len(ch.units)
+			// the first op.K units that are still queued (0 / too many: everything that is left of the chunk)
+			end := len(ch.data)
+			ahead := 0
+			for _, b := range ch.bounds {
+				if b > ch.pos {
+					ahead++
+					if ahead == op.K {
+						end = b
+						break
+					}
+				}
 			}
-			var data []byte
-			for _, u := range ch.units[:k] {
-				data = append(data, u...)
+			for ch.pos < end && !hung {
+				n := end - ch.pos
+				if sc.Cfg.Chunk > 0 && n > sc.Cfg.Chunk {
+					n = sc.Cfg.Chunk
+				}
+				src := ch.data[ch.pos : ch.pos+n]
+				var data []byte
+				if sc.Cfg.Reuse {
+					if n > len(rxbuf[op.Side]) {
+						rxbuf[op.Side] = make([]byte, n)
+					}
+					data = rxbuf[op.Side][:n]
+					copy(data, src)
+				} else {
+					data = append([]byte{}, src...)
+				}
+				ch.pos += n
+				sub := mk(i, op)
+				sub.Level, sub.N, sub.U, sub.Rem = ch.level.String(), n, n, len(ch.data)-ch.pos
+				call(&sub, func() error { return e.HandleData(ch.level, data) })
+				if sc.Cfg.Reuse && sub.Ret != "hung" {
+					// HandleData has returned: the buffer belongs to the caller again, and the caller scribbles over it
+					for j := range rxbuf[op.Side] {
+						rxbuf[op.Side][j] = 0xA5
+					}
+				}
+				out.Emit(sub)
+				i++
+				if sub.Ret != "ok" {
+					break
+				}
 			}
-			ch.units = ch.units[k:]
-			if len(ch.units) == 0 {
+			if ch.pos >= len(ch.data) {
 				wire[op.Side] = q[1:]
 			}
-			ev.Level, ev.N, ev.U, ev.Rem = ch.level.String(), len(data), k, len(ch.units)
-			call(&ev, func() error { return e.HandleData(ch.level, data) })
+			i--
+			continue
 		case "Cancel":
 			ccancel()
 		case "Close":
